@@ -906,6 +906,17 @@ class BIPBBMD(BIPSAP, Client, Server, RecurringTask, DebugContents):
             self.request(xpdu)
 
         elif isinstance(pdu, DistributeBroadcastToNetwork):
+            # only registered foreign devices are served, J.4.5
+            for fdte in self.bbmdFDT:
+                if fdte.fdAddress == pdu.pduSource:
+                    break
+            else:
+                if _debug: BIPBBMD._debug("    - not a registered foreign device: %r", pdu.pduSource)
+                xpdu = Result(code=0x0060, user_data=pdu.pduUserData)
+                xpdu.pduDestination = pdu.pduSource
+                self.request(xpdu)
+                return
+
             # send it upstream if there is a network layer
             if self.serverPeer:
                 # build a PDU with a local broadcast address
